@@ -83,6 +83,7 @@ pub enum Shape {
     Bytes,
     ByteBuf,
     SRef,
+    BRef,
     Ident,
     U128,
     I128,
@@ -194,6 +195,7 @@ impl<'a> P<'a> {
             "bytes" => Shape::Bytes,
             "bytebuf" => Shape::ByteBuf,
             "sref" => Shape::SRef,
+            "bref" => Shape::BRef,
             "ident" => Shape::Ident,
             "u128" => Shape::U128,
             "i128" => Shape::I128,
@@ -563,6 +565,8 @@ impl<'de, 's> DeserializeSeed<'de> for Seed<'s> {
             Shape::Bytes => d.deserialize_bytes(AnyV),
             Shape::ByteBuf => d.deserialize_byte_buf(AnyV),
             Shape::SRef => d.deserialize_str(StrV),
+            // serde's own `&'de str`: only a BORROWED string is accepted (visit_borrowed_str)
+            Shape::BRef => <&'de str as serde::Deserialize<'de>>::deserialize(d).map(|x| Value::Str(x.to_string())),
             Shape::Ident => d.deserialize_identifier(StrV),
             Shape::U128 => u128::deserialize(d).map(Value::BigU),
             Shape::I128 => i128::deserialize(d).map(Value::BigI),
